@@ -480,6 +480,7 @@ void  vp_copy(const void* first, const void* last, void* out);
 size_t strlen(const char*); int strcmp(const char*, const char*); int strncmp(const char*, const char*, size_t);
 int vp_isupper(int); int vp_isdigit(int); int vp_islower(int);
 void vp_swap(void* a, void* b);                   /* std::swap of two objects of the same type */
+size_t vp_count_char(const char* first, const char* last, int c);   /* std::count on characters */
 '''
 
 def strip_try_catch(rules, body):
@@ -523,6 +524,7 @@ def aux_functions():
         if extra == "write":
             # R23: the text of the value (operator<< of the value type, a library contract) is supplied as a parameter
             body = r.sub("R23_formatted_value", r"std::ostringstream ss;\s*ss << value;\s*if\(ss\.fail\(\)\)\s*return\(false\);\s*std::string valuedata=ss\.str\(\);", "", body, must_fire=True)
+            body = r.sub("R16_count", r"std::count\(valuedata\.begin\(\),\s*valuedata\.end\(\),\s*('[^']*'|'\\'')\)", r"vp_count_char(valuedata_p, valuedata_p + valuedata_size, \1)", body)
             body = r.sub("R18_size", r"valuedata\.size\(\)", "valuedata_size", body, must_fire=True)
             body = r.sub("R18_begin_end", r"valuedata\.begin\(\),\s*valuedata\.end\(\)", "valuedata_p, valuedata_p + valuedata_size", body, must_fire=True)
         for bad in ("std::", "try", "catch", "throw", "allocate<"):
